@@ -653,3 +653,148 @@ func RuleKScopeFirst(c *core.Ctx) {
 	}
 	c.Floor(rule, 10)
 }
+
+// RuleCConstIndex — no constant index or constant slice bound on a slice of
+// unknown length in the parser packages: `x[k]`, `x[k:]`, `x[:k]` with a
+// constant k on a slice or string panic when the operand is shorter. Every
+// such access in lib/syntax/{parser,scanner,directives} is dominated by a
+// test of len(x) that guarantees the needed length, or x has a constant
+// length by construction (array, literal, make with a constant size). The
+// accesses of the scanned text itself are the subject of C-index.
+func RuleCConstIndex(c *core.Ctx) {
+	const rule = "C-const-index"
+	p := c.P
+	inScope := map[string]bool{pkgParser: true, pkgScanner: true, pkgDirectives: true}
+	lenGuard := func(at ssa.Instruction, x ssa.Value, need int64) bool {
+		fn := at.Parent()
+		for _, b := range fn.Blocks {
+			iff, ok := b.Instrs[len(b.Instrs)-1].(*ssa.If)
+			if !ok {
+				continue
+			}
+			bo, ok := iff.Cond.(*ssa.BinOp)
+			if !ok {
+				continue
+			}
+			l, k, op := bo.X, bo.Y, bo.Op
+			if _, isC := l.(*ssa.Const); isC {
+				l, k = k, l
+				switch op {
+				case token.LSS:
+					op = token.GTR
+				case token.GTR:
+					op = token.LSS
+				case token.LEQ:
+					op = token.GEQ
+				case token.GEQ:
+					op = token.LEQ
+				}
+			}
+			call, ok := l.(*ssa.Call)
+			if !ok {
+				continue
+			}
+			if bi, ok := call.Call.Value.(*ssa.Builtin); !ok || bi.Name() != "len" || !p.SameExpr(call.Call.Args[0], x) {
+				continue
+			}
+			n, ok := core.ConstInt(k)
+			if !ok {
+				continue
+			}
+			// the edge on which len(x) >= need
+			var succ *ssa.BasicBlock
+			switch {
+			case op == token.GTR && n+1 >= need, op == token.GEQ && n >= need:
+				succ = b.Succs[0]
+			case op == token.NEQ && n == 0 && need <= 1:
+				succ = b.Succs[0]
+			case op == token.LSS && n >= need, op == token.LEQ && n+1 >= need:
+				succ = b.Succs[1]
+			case op == token.EQL && n == 0 && need <= 1:
+				succ = b.Succs[1]
+			case op == token.EQL && n >= need:
+				succ = b.Succs[0]
+			}
+			if succ != nil && core.EdgeDominates(b, succ, at.Block()) {
+				return true
+			}
+		}
+		return false
+	}
+	constLen := func(x ssa.Value) (int64, bool) {
+		switch y := core.Strip(x).(type) {
+		case *ssa.Slice:
+			if al, ok := y.X.(*ssa.Alloc); ok {
+				if arr, ok := al.Type().Underlying().(*types.Pointer).Elem().Underlying().(*types.Array); ok && y.Low == nil && y.High == nil {
+					return arr.Len(), true
+				}
+			}
+		case *ssa.MakeSlice:
+			if n, ok := core.ConstInt(y.Len); ok {
+				return n, true
+			}
+		case *ssa.Const:
+			if s, ok := core.ConstString(y); ok {
+				return int64(len(s)), true
+			}
+		}
+		return 0, false
+	}
+	n := 0
+	for _, fn := range p.SrcFuncs() {
+		if !inScope[core.PkgPathOf(fn)] {
+			continue
+		}
+		core.EachInstr(fn, func(ins ssa.Instruction) {
+			var x ssa.Value
+			var need int64
+			what := ""
+			switch y := ins.(type) {
+			case *ssa.Slice:
+				if _, isArr := y.X.Type().Underlying().(*types.Pointer); isArr {
+					return // slice of an array: bounds are checked against a constant length by the compiler
+				}
+				if y.Low != nil {
+					if k, ok := core.ConstInt(y.Low); ok && k > 0 {
+						x, need, what = y.X, k, fmt.Sprintf("x[%d:]", k)
+					}
+				}
+				if y.High != nil {
+					if k, ok := core.ConstInt(y.High); ok && k > need {
+						x, need, what = y.X, k, fmt.Sprintf("x[:%d]", k)
+					}
+				}
+			case *ssa.IndexAddr:
+				if _, isArr := y.X.Type().Underlying().(*types.Pointer); isArr {
+					return
+				}
+				if k, ok := core.ConstInt(y.Index); ok {
+					x, need, what = y.X, k+1, fmt.Sprintf("x[%d]", k)
+				}
+			case *ssa.Index:
+				if _, isArr := y.X.Type().Underlying().(*types.Array); isArr {
+					return
+				}
+				if k, ok := core.ConstInt(y.Index); ok {
+					x, need, what = y.X, k+1, fmt.Sprintf("x[%d]", k)
+				}
+			}
+			if x == nil {
+				return
+			}
+			n++
+			key := fmt.Sprintf("%s:%s on %s", core.FuncName(fn), what, describeValue(p, x))
+			if l, ok := constLen(x); ok && l >= need {
+				c.Ob(rule, key, ins.Pos(), core.FuncName(fn), core.Discharged, "the operand has a constant length that suffices")
+				return
+			}
+			if lenGuard(ins, x, need) {
+				c.Ob(rule, key, ins.Pos(), core.FuncName(fn), core.Discharged, fmt.Sprintf("dominated by a test that guarantees len >= %d", need))
+				return
+			}
+			c.Ob(rule, key, ins.Pos(), core.FuncName(fn), core.Violated, fmt.Sprintf("%s needs len >= %d and nothing guarantees it: an input for which the operand is shorter (an empty list) makes the parser panic instead of returning a syntax error", what, need))
+		})
+	}
+	c.Ob(rule, "parser packages:constant indices and bounds", 0, "", core.Discharged, fmt.Sprintf("%d constant index / slice-bound accesses on slices or strings of unknown length examined", n))
+	c.Floor(rule, 1)
+}
